@@ -141,6 +141,15 @@ def einsum (U : List κ) (vars : List Nat) (ops : List (Cur κ)) (zpt : (Nat →
     (q : List κ) (σ0 : Nat → κ) : Int :=
   esum U vars (fun σ => if zpt σ = q then prodVal ops σ else 0) σ0
 
+/-- **the dense result, read point-wise**: the output variables (`zr`, in loop order) are fixed to the
+    coordinates of the point `q`, the remaining (reduction) variables are summed over `U` -/
+def dsum (U : List κ) : List Nat → List Nat → List κ → ((Nat → κ) → Int) → (Nat → κ) → Int
+  | [], _, _, F, σ => F σ
+  | v :: vs, zv :: zr, qc :: q, F, σ =>
+    if zv = v then dsum U vs zr q F (upd σ v qc)
+    else (U.map (fun c => dsum U vs (zv :: zr) (qc :: q) F (upd σ v c))).sum
+  | v :: vs, _, _, F, σ => (U.map (fun c => dsum U vs [] [] F (upd σ v c))).sum
+
 /-- all points of `d` coordinates from `U`, lexicographically -/
 def points (U : List κ) : Nat → List (List κ)
   | 0 => [[]]
